@@ -1,11 +1,1147 @@
-//! C12 — check not built yet.
-use mc_core::Args;
-use serde_json::Value;
+//! C12 — ZIP 321 payment requests round-trip and only valid requests parse.
+//!
+//! Sweeps (all on the real `zip321` / `zcash_protocol::memo` code):
+//!  A. URIs as token sequences: lead address in {none, Sapling, transparent, unified} x every sequence
+//!     (with repetition, every order) of length <= 3 (quick) / <= 4 (thorough) over a 35-token alphabet
+//!     of `name[.index]=value` parameters; rendered to a string here; compared with an independent
+//!     validity predicate + expected request written from ZIP 321.
+//!  B. Amounts: every fractional part x boundary coin values and every coin value x boundary
+//!     fractions (thorough; a by-structure subset in quick), both directions, against integer arithmetic;
+//!     plus a list of malformed / boundary amount strings.
+//!  C. Labels, messages, other-parameter values: every ASCII character in five contexts and all pairs
+//!     of a UTF-8 / percent-literal lattice, through to_uri -> from_uri.
+//!  D. Memos: length x lead byte x tail pattern lattice through MemoBytes, Memo and the URI.
+//!  E. `Payment::new` on recipient kind x network x amount x memo, and requests at index sets.
 
-pub fn replay(_kind: &str, _case: &Value) -> Result<(), String> {
-    Err("C12: check not built".into())
+use mc_core::{catch, Args, Run, Tier};
+use rayon::prelude::*;
+use serde_json::{json, Value};
+use std::collections::{BTreeMap, BTreeSet};
+use std::sync::OnceLock;
+use zcash_address::unified::{self, Encoding};
+use zcash_address::{ToAddress, ZcashAddress};
+use zcash_protocol::consensus::NetworkType;
+use zcash_protocol::memo::{Memo, MemoBytes};
+use zcash_protocol::value::Zatoshis;
+use zip321::{Payment, PaymentError, TransactionRequest};
+
+const COIN: u64 = 100_000_000;
+const MAX_MONEY: u64 = 21_000_000 * COIN;
+
+// ---------------------------------------------------------------------------------------------
+// Address fixtures (values only; what they can receive is stated here from the protocol, not asked
+// of the code under test)
+// ---------------------------------------------------------------------------------------------
+
+#[derive(Clone, Debug)]
+pub struct Addr {
+    pub name: String,
+    pub z: ZcashAddress,
+    pub s: String,
+    /// shielded recipients (Sprout, Sapling, unified with a Sapling/Orchard receiver) can receive a memo
+    pub memo_ok: bool,
+    /// P2PKH, P2SH and TEX recipients produce a transparent output
+    pub t_only: bool,
 }
 
-pub fn run(_args: &Args) -> i32 {
-    mc_core::machinery_error("C12: check not built")
+fn fill<const N: usize>(salt: u8) -> [u8; N] {
+    let mut a = [0u8; N];
+    for (i, b) in a.iter_mut().enumerate() {
+        *b = (i as u8).wrapping_mul(29).wrapping_add(salt) | 1;
+    }
+    a
+}
+
+const NETS: [(NetworkType, &str); 3] = [(NetworkType::Main, "main"), (NetworkType::Test, "test"), (NetworkType::Regtest, "regtest")];
+/// per network: 0 sapling, 1 sapling2, 2 p2pkh, 3 p2sh, 4 tex, 5 ua(sapling+p2pkh), 6 ua(orchard), 7 sprout
+const PER_NET: usize = 8;
+
+pub fn addrs() -> &'static Vec<Addr> {
+    static A: OnceLock<Vec<Addr>> = OnceLock::new();
+    A.get_or_init(|| {
+        let mut v = Vec::new();
+        for (net, nn) in NETS {
+            let mut push = |name: &str, z: ZcashAddress, memo_ok: bool, t_only: bool| {
+                let s = z.encode();
+                v.push(Addr { name: format!("{name}-{nn}"), z, s, memo_ok, t_only });
+            };
+            push("sapling", ZcashAddress::from_sapling(net, fill(1)), true, false);
+            push("sapling2", ZcashAddress::from_sapling(net, fill(2)), true, false);
+            push("p2pkh", ZcashAddress::from_transparent_p2pkh(net, fill(3)), false, true);
+            push("p2sh", ZcashAddress::from_transparent_p2sh(net, fill(4)), false, true);
+            push("tex", ZcashAddress::from_tex(net, fill(5)), false, true);
+            let ua = unified::Address::try_from_items(vec![unified::Receiver::Sapling(fill(6)), unified::Receiver::P2pkh(fill(7))]).expect("well-formed");
+            push("ua-sapling-p2pkh", ZcashAddress::from_unified(net, ua), true, false);
+            let ua = unified::Address::try_from_items(vec![unified::Receiver::Orchard(fill(8))]).expect("well-formed");
+            push("ua-orchard", ZcashAddress::from_unified(net, ua), true, false);
+            push("sprout", ZcashAddress::from_sprout(net, fill(9)), true, false);
+        }
+        v
+    })
+}
+fn addr(net: usize, k: usize) -> &'static Addr {
+    &addrs()[net * PER_NET + k]
+}
+
+// ---------------------------------------------------------------------------------------------
+// Expected / observed request
+// ---------------------------------------------------------------------------------------------
+
+#[derive(Clone, Debug, PartialEq, Eq, Default)]
+pub struct ExpPayment {
+    addr: String,
+    amount: Option<u64>,
+    memo: Option<Vec<u8>>, // 512 bytes
+    label: Option<String>,
+    message: Option<String>,
+    others: Vec<(String, String)>,
+}
+pub type ExpReq = BTreeMap<usize, ExpPayment>;
+
+fn observe(r: &TransactionRequest) -> ExpReq {
+    r.payments()
+        .iter()
+        .map(|(i, p)| {
+            (
+                *i,
+                ExpPayment {
+                    addr: p.recipient_address().encode(),
+                    amount: p.amount().map(u64::from),
+                    memo: p.memo().map(|m| m.as_array().to_vec()),
+                    label: p.label().cloned(),
+                    message: p.message().cloned(),
+                    others: p.other_params().to_vec(),
+                },
+            )
+        })
+        .collect()
+}
+
+fn pad512(b: &[u8]) -> Vec<u8> {
+    let mut v = b.to_vec();
+    v.resize(512, 0);
+    v
+}
+
+/// base64url without padding (RFC 4648 section 5), written here.
+fn b64url(data: &[u8]) -> String {
+    const T: &[u8; 64] = b"ABCDEFGHIJKLMNOPQRSTUVWXYZabcdefghijklmnopqrstuvwxyz0123456789-_";
+    let mut s = String::new();
+    for c in data.chunks(3) {
+        let n = (c[0] as u32) << 16 | (*c.get(1).unwrap_or(&0) as u32) << 8 | *c.get(2).unwrap_or(&0) as u32;
+        s.push(T[(n >> 18) as usize & 63] as char);
+        s.push(T[(n >> 12) as usize & 63] as char);
+        if c.len() > 1 {
+            s.push(T[(n >> 6) as usize & 63] as char);
+        }
+        if c.len() > 2 {
+            s.push(T[n as usize & 63] as char);
+        }
+    }
+    s
+}
+
+/// Common clauses for anything the parser accepted: it re-renders to a URI that parses to the same
+/// request, and `total()` is the exact sum.
+fn accepted_clauses(r: &TransactionRequest) -> Result<(), String> {
+    let uri2 = catch(|| r.to_uri()).map_err(|p| format!("to_uri panicked: {p}"))?;
+    match catch(|| TransactionRequest::from_uri(&uri2)).map_err(|p| format!("from_uri panicked on the re-rendered URI: {p}"))? {
+        Ok(r2) if &r2 == r => {}
+        Ok(_) => return Err(format!("from_uri(to_uri(r)) != r; re-rendered URI {uri2:?}")),
+        Err(e) => return Err(format!("the re-rendered URI {uri2:?} does not parse: {e:?}")),
+    }
+    let obs = observe(r);
+    let exact: Option<u128> = obs.values().map(|p| p.amount.map(|a| a as u128)).sum();
+    let present: u128 = obs.values().filter_map(|p| p.amount.map(|a| a as u128)).sum();
+    let got = catch(|| r.total()).map_err(|p| format!("total panicked: {p}"))?;
+    match (exact, got) {
+        (None, Ok(None)) => {}
+        // documented twice: "Ok(None) if any payment does not specify an amount" and "Err if any summation step
+        // leaves the range"; when both hold either answer is within the documentation
+        (None, Err(_)) if present > MAX_MONEY as u128 => {}
+        (Some(s), Ok(Some(t))) if s <= MAX_MONEY as u128 && u64::from(t) as u128 == s => {}
+        (Some(s), Err(_)) if s > MAX_MONEY as u128 => {}
+        (e, g) => return Err(format!("total() = {g:?} but the exact sum is {e:?}")),
+    }
+    for (i, p) in &obs {
+        if *i > 9999 {
+            return Err(format!("payment index {i} above 9999"));
+        }
+        if p.amount.is_some_and(|a| a > MAX_MONEY) {
+            return Err("amount above MAX_MONEY".into());
+        }
+    }
+    Ok(())
+}
+
+// ---------------------------------------------------------------------------------------------
+// A. token sequences
+// ---------------------------------------------------------------------------------------------
+
+#[derive(Clone, Debug)]
+enum Sem {
+    Addr(&'static Addr),
+    BadAddr,
+    Amount(u64),
+    BadAmount,
+    Memo(Vec<u8>),
+    BadMemo,
+    Label(String),
+    Message(String),
+    Other(String, String),
+    Req,
+}
+
+#[derive(Clone, Debug)]
+pub struct Tok {
+    text: String,
+    /// `None`: the index is malformed (".0", ".01", ".10000")
+    idx: Option<usize>,
+    sem: Sem,
+}
+
+fn idx_of(suffix: &str) -> Option<usize> {
+    match suffix {
+        "" => Some(0),
+        ".1" => Some(1),
+        ".2" => Some(2),
+        ".9999" => Some(9999),
+        _ => None, // ".0", ".01", ".10000"
+    }
+}
+
+const LEADS: [Option<usize>; 4] = [None, Some(0), Some(2), Some(5)]; // none, sapling, p2pkh, unified (testnet)
+
+pub fn tokens() -> &'static Vec<Tok> {
+    static T: OnceLock<Vec<Tok>> = OnceLock::new();
+    T.get_or_init(|| {
+        let sap2 = addr(1, 1);
+        let taddr = addr(1, 2);
+        let tex = addr(1, 4);
+        let mut bad = sap2.s.clone();
+        let last = bad.pop().unwrap();
+        bad.push(if last == 'q' { 'p' } else { 'q' });
+        let mut memo512 = vec![0xf5u8; 512];
+        memo512[511] = 7;
+        let memo513 = vec![0x41u8; 513];
+        let mut v = Vec::new();
+        let mut t = |name: &str, ix: &str, value: String, sem: Sem| {
+            v.push(Tok { text: format!("{name}{ix}={value}"), idx: idx_of(ix), sem });
+        };
+        t("address", "", sap2.s.clone(), Sem::Addr(sap2));
+        t("address", ".1", sap2.s.clone(), Sem::Addr(sap2));
+        t("address", ".1", taddr.s.clone(), Sem::Addr(taddr));
+        t("address", ".2", tex.s.clone(), Sem::Addr(tex));
+        t("address", ".9999", taddr.s.clone(), Sem::Addr(taddr));
+        t("address", ".10000", sap2.s.clone(), Sem::Addr(sap2));
+        t("address", ".01", sap2.s.clone(), Sem::Addr(sap2));
+        t("address", ".0", sap2.s.clone(), Sem::Addr(sap2));
+        t("address", ".1", bad, Sem::BadAddr);
+        t("amount", "", "1".into(), Sem::Amount(COIN));
+        t("amount", "", "0".into(), Sem::Amount(0));
+        t("amount", ".1", "0".into(), Sem::Amount(0));
+        t("amount", ".1", "21000000".into(), Sem::Amount(MAX_MONEY));
+        t("amount", ".1", "21000000.00000001".into(), Sem::BadAmount);
+        t("amount", ".2", "0.00000001".into(), Sem::Amount(1));
+        t("amount", "", "1.123456789".into(), Sem::BadAmount);
+        t("amount", ".1", "1.".into(), Sem::BadAmount);
+        t("amount", ".9999", "0.1".into(), Sem::Amount(COIN / 10));
+        t("amount", ".01", "1".into(), Sem::Amount(COIN));
+        t("memo", "", b64url(b"hi"), Sem::Memo(pad512(b"hi")));
+        t("memo", ".1", b64url(&memo512), Sem::Memo(memo512.clone()));
+        t("memo", ".2", b64url(&memo513), Sem::BadMemo);
+        t("memo", ".1", "!!!!".into(), Sem::BadMemo);
+        t("label", "", "abc".into(), Sem::Label("abc".into()));
+        t("label", ".1", "a%20b".into(), Sem::Label("a b".into()));
+        t("label", ".1", "".into(), Sem::Label("".into()));
+        t("message", "", "x".into(), Sem::Message("x".into()));
+        t("message", ".1", "%E2%82%AC".into(), Sem::Message("€".into()));
+        t("message", ".10000", "x".into(), Sem::Message("x".into()));
+        t("other", "", "1".into(), Sem::Other("other".into(), "1".into()));
+        t("other", ".1", "1".into(), Sem::Other("other".into(), "1".into()));
+        t("other", ".1", "2".into(), Sem::Other("other".into(), "2".into()));
+        t("foo", ".1", "bar".into(), Sem::Other("foo".into(), "bar".into()));
+        t("req-x", "", "1".into(), Sem::Req);
+        t("req-x", ".1", "1".into(), Sem::Req);
+        v
+    })
+}
+
+#[derive(Debug)]
+enum Exp {
+    Accept(ExpReq),
+    Reject(&'static str),
+    Either(&'static str),
+}
+
+/// ZIP 321 validity and meaning of (lead address, parameter list), written from the ZIP.
+fn reference(lead: Option<&'static Addr>, toks: &[&Tok]) -> Exp {
+    if toks.iter().any(|t| t.idx.is_none()) {
+        return Exp::Reject("param-index"); // paramindex = "." NONZERO 0*3DIGIT
+    }
+    for t in toks {
+        match t.sem {
+            Sem::BadAddr => return Exp::Reject("address-value"),
+            Sem::BadAmount => return Exp::Reject("amount-value"),
+            Sem::BadMemo => return Exp::Reject("memo-value"),
+            Sem::Req => return Exp::Reject("unknown-required-parameter"),
+            _ => {}
+        }
+    }
+    // group by index; at most one occurrence of each (name, index)
+    let mut addrs: BTreeMap<usize, &'static Addr> = BTreeMap::new();
+    if let Some(a) = lead {
+        addrs.insert(0, a);
+    }
+    let mut seen: BTreeSet<(usize, String)> = BTreeSet::new();
+    if lead.is_some() {
+        seen.insert((0, "address".into()));
+    }
+    for t in toks {
+        let i = t.idx.unwrap();
+        let name = match &t.sem {
+            Sem::Addr(_) => "address".to_string(),
+            Sem::Amount(_) => "amount".into(),
+            Sem::Memo(_) => "memo".into(),
+            Sem::Label(_) => "label".into(),
+            Sem::Message(_) => "message".into(),
+            Sem::Other(n, _) => n.clone(),
+            _ => unreachable!(),
+        };
+        if !seen.insert((i, name)) {
+            return Exp::Reject("duplicate-parameter");
+        }
+        if let Sem::Addr(a) = &t.sem {
+            addrs.insert(i, a);
+        }
+    }
+    let mut req: ExpReq = BTreeMap::new();
+    for (i, a) in &addrs {
+        req.insert(*i, ExpPayment { addr: a.s.clone(), ..Default::default() });
+    }
+    for t in toks {
+        let i = t.idx.unwrap();
+        let a = match addrs.get(&i) {
+            Some(a) => a,
+            None => return Exp::Reject("recipient-missing"),
+        };
+        let p = req.get_mut(&i).unwrap();
+        match &t.sem {
+            Sem::Amount(z) => {
+                if *z == 0 && a.t_only {
+                    return Exp::Reject("zero-valued-transparent-output");
+                }
+                p.amount = Some(*z);
+            }
+            Sem::Memo(m) => {
+                if !a.memo_ok {
+                    return Exp::Reject("memo-to-transparent");
+                }
+                p.memo = Some(m.clone());
+            }
+            Sem::Label(s) => p.label = Some(s.clone()),
+            Sem::Message(s) => p.message = Some(s.clone()),
+            Sem::Other(n, v) => p.others.push((n.clone(), v.clone())),
+            _ => {}
+        }
+    }
+    if req.is_empty() {
+        return Exp::Either("no-payment"); // "zcash:" alone: the ABNF asks for an address or parameters; the crate documents it as the empty request
+    }
+    Exp::Accept(req)
+}
+
+fn render_uri(lead: Option<&Addr>, toks: &[&Tok]) -> String {
+    let mut s = String::from("zcash:");
+    if let Some(a) = lead {
+        s.push_str(&a.s);
+    }
+    for (i, t) in toks.iter().enumerate() {
+        s.push(if i == 0 { '?' } else { '&' });
+        s.push_str(&t.text);
+    }
+    s
+}
+
+pub fn check_uri(lead_i: usize, tok_is: &[usize]) -> Result<String, String> {
+    let lead = LEADS.get(lead_i).ok_or("lead")?.map(|k| addr(1, k));
+    let all = tokens();
+    let toks: Vec<&Tok> = tok_is.iter().map(|i| all.get(*i).ok_or("token")).collect::<Result<_, _>>()?;
+    let uri = render_uri(lead, &toks);
+    let exp = reference(lead, &toks);
+    let got = catch(|| TransactionRequest::from_uri(&uri)).map_err(|p| format!("from_uri panicked on {uri:?}: {p}"))?;
+    match (got, exp) {
+        (Ok(_), Exp::Reject(why)) => Err(format!("accepted a URI that ZIP 321 forbids ({why}): {uri}")),
+        (Err(e), Exp::Accept(_)) => Err(format!("refused a valid URI with {e:?}: {uri}")),
+        (Err(_), Exp::Reject(why)) => Ok(format!("reject:{why}")),
+        (Err(_), Exp::Either(why)) => Ok(format!("either-rejected:{why}")),
+        (Ok(r), Exp::Either(why)) => {
+            accepted_clauses(&r)?;
+            Ok(format!("either-accepted:{why}"))
+        }
+        (Ok(r), Exp::Accept(want)) => {
+            let obs = observe(&r);
+            if obs != want {
+                return Err(format!("parsed request differs from the ZIP 321 meaning of {uri}: got {obs:?}, expected {want:?}"));
+            }
+            accepted_clauses(&r)?;
+            Ok(format!("accept:{}payments", want.len()))
+        }
+    }
+}
+
+fn sweep_uris(run: &Run, maxlen: usize, deeper_wellformed: Option<usize>) {
+    run.section("token_alphabet", json!(tokens().iter().map(|t| if t.text.len() > 60 { format!("{}…", &t.text[..60]) } else { t.text.clone() }).collect::<Vec<_>>()));
+    let all: Vec<usize> = (0..tokens().len()).collect();
+    // one pass per length, shortest first, so that the recorded counterexamples are the shortest ones
+    for len in 0..=maxlen {
+        sweep_uri_level(run, len, &all);
+    }
+    if let Some(len) = deeper_wellformed {
+        // one level deeper over the tokens that are well-formed on their own (a malformed token makes the URI invalid
+        // wherever it stands, so it adds no interplay)
+        let sub: Vec<usize> = tokens()
+            .iter()
+            .enumerate()
+            .filter(|(_, t)| t.idx.is_some() && !matches!(t.sem, Sem::BadAddr | Sem::BadAmount | Sem::BadMemo))
+            .map(|(i, _)| i)
+            .collect();
+        run.section("token_sub_alphabet_deeper", json!({"length": len, "tokens": sub}));
+        sweep_uri_level(run, len, &sub);
+    }
+}
+
+fn sweep_uri_level(run: &Run, len: usize, alphabet: &[usize]) {
+    let nt = alphabet.len() as u64;
+    let per_lead = nt.pow(len as u32);
+    let total = per_lead * LEADS.len() as u64;
+    const CH: u64 = 2048;
+    (0..total.div_ceil(CH)).into_par_iter().for_each(|c| {
+        let mut n = 0u64;
+        let mut outcomes: BTreeMap<String, u64> = BTreeMap::new();
+        let mut seq = vec![0usize; len];
+        for code in c * CH..((c + 1) * CH).min(total) {
+            let lead = (code / per_lead) as usize;
+            let mut rest = code % per_lead;
+            for slot in seq.iter_mut().rev() {
+                *slot = alphabet[(rest % nt) as usize];
+                rest /= nt;
+            }
+            n += 1;
+            match check_uri(lead, &seq) {
+                Ok(o) => *outcomes.entry(format!("uri:{o}")).or_insert(0) += 1,
+                Err(m) => run.fail("uri", format!("uri:lead{lead}:{seq:?}"), m, json!({"lead": lead, "toks": seq})),
+            }
+        }
+        run.eval_distinct(n);
+        for (k, v) in outcomes {
+            run.outcome_n(&k, v);
+        }
+    });
+}
+
+// ---------------------------------------------------------------------------------------------
+// B. amounts
+// ---------------------------------------------------------------------------------------------
+
+#[derive(Debug, PartialEq, Eq, Clone, Copy)]
+enum AmountRef {
+    Valid(u64),
+    /// well-formed digits with superfluous leading zeros: ZIP 321's ABNF admits them; not demanded
+    LeadingZeros(u64),
+    Invalid,
+}
+
+/// amountparam value = 1*DIGIT [ "." 1*8DIGIT ], value in zatoshis <= MAX_MONEY. Integer arithmetic.
+fn ref_parse_amount(s: &str) -> AmountRef {
+    let (whole, frac) = match s.split_once('.') {
+        Some((w, f)) => (w, Some(f)),
+        None => (s, None),
+    };
+    let digits = |x: &str| !x.is_empty() && x.bytes().all(|b| b.is_ascii_digit());
+    if !digits(whole) || frac.is_some_and(|f| !digits(f) || f.len() > 8) {
+        return AmountRef::Invalid;
+    }
+    let mut w: u128 = 0;
+    for b in whole.bytes() {
+        w = w * 10 + (b - b'0') as u128;
+        if w > 21_000_000 {
+            return AmountRef::Invalid;
+        }
+    }
+    let mut f: u128 = 0;
+    let fs = frac.unwrap_or("");
+    for b in fs.bytes() {
+        f = f * 10 + (b - b'0') as u128;
+    }
+    for _ in fs.len()..8 {
+        f *= 10;
+    }
+    let z = w * COIN as u128 + f;
+    if z > MAX_MONEY as u128 {
+        return AmountRef::Invalid;
+    }
+    if whole.len() > 1 && whole.starts_with('0') {
+        AmountRef::LeadingZeros(z as u64)
+    } else {
+        AmountRef::Valid(z as u64)
+    }
+}
+
+fn amount_prefix() -> &'static str {
+    static P: OnceLock<String> = OnceLock::new();
+    P.get_or_init(|| format!("zcash:{}?amount=", addr(0, 0).s))
+}
+
+/// decimal string -> zatoshis through `from_uri`.
+pub fn check_amount_str(s: &str) -> Result<&'static str, String> {
+    let uri = format!("{}{}", amount_prefix(), s);
+    let want = ref_parse_amount(s);
+    let got = catch(|| TransactionRequest::from_uri(&uri)).map_err(|p| format!("from_uri panicked on amount {s:?}: {p}"))?;
+    let got_amount = match &got {
+        Ok(r) => match r.payments().get(&0) {
+            Some(p) if r.payments().len() == 1 => Some(p.amount().map(u64::from)),
+            _ => return Err(format!("amount {s:?}: unexpected request shape")),
+        },
+        Err(_) => None,
+    };
+    match (want, got_amount) {
+        (AmountRef::Valid(z), Some(Some(g))) | (AmountRef::LeadingZeros(z), Some(Some(g))) if g == z => Ok("amount-accepted"),
+        (AmountRef::Valid(z), g) => Err(format!("amount {s:?} is {z} zatoshis; parser gave {g:?}")),
+        (AmountRef::LeadingZeros(z), Some(g)) => Err(format!("amount {s:?} accepted as {g:?}, exact value {z}")),
+        (AmountRef::LeadingZeros(_), None) => Ok("amount-leading-zeros-refused"),
+        (AmountRef::Invalid, None) => Ok("amount-refused"),
+        (AmountRef::Invalid, Some(g)) => Err(format!("amount {s:?} is not a valid ZIP 321 amount but was accepted as {g:?}")),
+    }
+}
+
+/// zatoshis -> decimal string through `to_uri`, back through `from_uri`, and the own renderings of the
+/// same value through `from_uri`.
+pub fn check_amount(z: u64) -> Result<(), String> {
+    let coins = z / COIN;
+    let f = z % COIN;
+    if z > MAX_MONEY {
+        // not a value; only the decimal strings naming it must be refused
+        check_amount_str(&format!("{coins}.{f:08}"))?;
+        return Ok(());
+    }
+    let zat = Zatoshis::from_u64(z).map_err(|_| format!("Zatoshis::from_u64({z}) refused"))?;
+    let r = TransactionRequest::from_indexed(BTreeMap::from([(0usize, Payment::without_memo(addr(0, 0).z.clone(), zat))])).map_err(|e| format!("from_indexed: {e:?}"))?;
+    let uri = catch(|| r.to_uri()).map_err(|p| format!("to_uri panicked for {z}: {p}"))?;
+    let astr = uri.strip_prefix(amount_prefix()).ok_or_else(|| format!("unexpected rendering {uri:?}"))?;
+    match ref_parse_amount(astr) {
+        AmountRef::Valid(v) if v == z => {}
+        other => return Err(format!("{z} zatoshis rendered as {astr:?}, which denotes {other:?}")),
+    }
+    match catch(|| TransactionRequest::from_uri(&uri)).map_err(|p| format!("from_uri panicked for {uri:?}: {p}"))? {
+        Ok(r2) if r2 == r => {}
+        other => return Err(format!("{z} zatoshis rendered as {astr:?} parses back to {:?}", other.map(|r| observe(&r)))),
+    }
+    // own renderings: full eight decimals; shortest; ".0" for whole coins
+    let full = format!("{coins}.{f:08}");
+    if full != astr {
+        check_amount_str(&full).map_err(|m| format!("{z}: {m}"))?;
+    }
+    let shortest = if f == 0 { format!("{coins}") } else { full.trim_end_matches('0').to_string() };
+    if shortest != astr {
+        check_amount_str(&shortest).map_err(|m| format!("{z}: {m}"))?;
+    }
+    if f == 0 {
+        check_amount_str(&format!("{coins}.0")).map_err(|m| format!("{z}: {m}"))?;
+    }
+    Ok(())
+}
+
+/// All numbers below 10^8 with at most `k` non-zero decimal digits.
+fn sparse_digits(k: usize) -> Vec<u64> {
+    fn rec(pos: usize, left: usize, cur: u64, out: &mut Vec<u64>) {
+        if pos == 8 {
+            out.push(cur);
+            return;
+        }
+        rec(pos + 1, left, cur * 10, out);
+        if left > 0 {
+            for d in 1..10 {
+                rec(pos + 1, left - 1, cur * 10 + d, out);
+            }
+        }
+    }
+    let mut out = Vec::new();
+    rec(0, k, 0, &mut out);
+    out
+}
+
+fn sweep_amounts(run: &Run, tier: Tier) {
+    const COINS_B: [u64; 3] = [0, 1, 20_999_999];
+    const FRACS_B: [u64; 4] = [0, 1, 10_000_000, 99_999_999];
+    let eval_chunk = |zs: &mut dyn Iterator<Item = u64>| {
+        let mut n = 0u64;
+        for z in zs {
+            n += 1;
+            if let Err(m) = check_amount(z) {
+                run.fail("amount", format!("amount:{z}"), m, json!({"z": z.to_string()}));
+                break;
+            }
+        }
+        run.eval_distinct(n);
+        run.outcome_n("amount:exact-both-ways", n);
+    };
+    match tier {
+        Tier::Thorough => {
+            const CH: u64 = 1 << 16;
+            let chunks = COIN.div_ceil(CH);
+            (0..chunks).into_par_iter().for_each(|c| {
+                let lo = c * CH;
+                let hi = (lo + CH).min(COIN);
+                eval_chunk(&mut (lo..hi).flat_map(|f| COINS_B.iter().map(move |c| c * COIN + f)));
+            });
+            let chunks = 21_000_001u64.div_ceil(CH);
+            (0..chunks).into_par_iter().for_each(|c| {
+                let lo = c * CH;
+                let hi = (lo + CH).min(21_000_001);
+                eval_chunk(&mut (lo..hi).flat_map(|coins| FRACS_B.iter().map(move |f| coins * COIN + f)));
+            });
+            run.section("amount_sweeps", json!({"fractions": "all 10^8 x coins {0,1,20999999}", "coins": "all 0..=21000000 x fractions {0,1,10^7,99999999}"}));
+        }
+        Tier::Quick => {
+            let mut fr: BTreeSet<u64> = sparse_digits(4).into_iter().collect();
+            fr.extend(0..1000);
+            fr.extend([99_999_999, 99_999_990, 99_999_900, 12_345_678, 10_000_001, 9_999_999]);
+            let mut co: BTreeSet<u64> = sparse_digits(4).into_iter().filter(|c| *c <= 21_000_000).collect();
+            co.extend(0..1000);
+            co.extend([20_999_999, 21_000_000, 20_999_990, 12_345_678, 9_999_999, 10_000_001]);
+            run.section("amount_sweeps", json!({"fractions": format!("{} values: <=4 non-zero digits, all below 1000, boundaries; x coins {{0,1,20999999}}", fr.len()), "coins": format!("{} values: <=4 non-zero digits, all below 1000, boundaries; x fractions {{0,1,10^7,99999999}}", co.len())}));
+            let fr: Vec<u64> = fr.into_iter().collect();
+            fr.par_chunks(512).for_each(|ch| eval_chunk(&mut ch.iter().flat_map(|f| COINS_B.iter().map(move |c| c * COIN + f))));
+            let co: Vec<u64> = co.into_iter().collect();
+            co.par_chunks(512).for_each(|ch| eval_chunk(&mut ch.iter().flat_map(|c| FRACS_B.iter().map(move |f| c * COIN + f))));
+        }
+    }
+    // explicit strings
+    for s in amount_strings() {
+        run.eval(format!("amount-str:{s}").as_bytes());
+        match check_amount_str(&s) {
+            Ok(o) => run.outcome(&format!("amount-str:{o}")),
+            Err(m) => run.fail("amount-str", format!("amount-str:{s}"), m, json!({"s": s})),
+        }
+    }
+}
+
+fn amount_strings() -> Vec<String> {
+    let mut v: Vec<String> = [
+        "21000000", "21000000.0", "21000000.00000000", "21000000.00000001", "21000001", "20999999.99999999", "20999999.999999990", "0", "0.0", "0.00000000",
+        "0.00000001", "0.000000001", "0.000000000", "00", "01", "00.5", "001.50", "1.", ".1", ".", "1..2", "1.2.3", "1.123456789", "1.12345678", "1,5", "1e3", "-1",
+        "+1", "", "18446744073709551616", "18446744073709551615", "184467440737.09551616", "184467440738", "99999999999999999999999", "9223372036854775808",
+        "18446744073709551624", "0x10", "１", "1.１", "1_0", "1.5.", "1.-5", "1.+5", "1.00000000000000000000", "000000000000000000000000000001", "2.1e7", "NaN", "inf",
+        "1%2E5", "%31",
+    ]
+    .iter()
+    .map(|s| s.to_string())
+    .collect();
+    for z in [MAX_MONEY - 1, MAX_MONEY, MAX_MONEY + 1, MAX_MONEY + COIN, 2 * MAX_MONEY] {
+        v.push(format!("{}.{:08}", z / COIN, z % COIN));
+    }
+    v
+}
+
+// ---------------------------------------------------------------------------------------------
+// C. labels / messages / other values
+// ---------------------------------------------------------------------------------------------
+
+pub fn check_text(s: &str) -> Result<&'static str, String> {
+    let a = addr(1, 0);
+    for field in 0..3 {
+        let p = catch(|| {
+            Payment::new(
+                a.z.clone(),
+                Some(Zatoshis::const_from_u64(1)),
+                None,
+                (field == 0).then(|| s.to_string()),
+                (field == 1).then(|| s.to_string()),
+                if field == 2 { vec![("x-note".to_string(), s.to_string()), ("Y2".to_string(), String::new())] } else { vec![] },
+            )
+        })
+        .map_err(|p| format!("Payment::new panicked: {p}"))?
+        .map_err(|e| format!("Payment::new refused a plain payment: {e:?}"))?;
+        for at in [0usize, 7] {
+            let r = TransactionRequest::from_indexed(BTreeMap::from([(at, p.clone())])).map_err(|e| format!("from_indexed: {e:?}"))?;
+            let uri = catch(|| r.to_uri()).map_err(|p| format!("to_uri panicked for text {s:?}: {p}"))?;
+            match catch(|| TransactionRequest::from_uri(&uri)).map_err(|p| format!("from_uri panicked for {uri:?}: {p}"))? {
+                Ok(r2) if r2 == r => {}
+                Ok(r2) => return Err(format!("text {s:?} in field {field} comes back as {:?} via {uri:?}", observe(&r2).values().next())),
+                Err(e) => return Err(format!("text {s:?} in field {field} renders to {uri:?} which does not parse: {e:?}")),
+            }
+        }
+        // the validating constructor agrees
+        match catch(|| TransactionRequest::new(vec![p.clone()])).map_err(|p| format!("TransactionRequest::new panicked: {p}"))? {
+            Ok(r) if observe(&r).get(&0).is_some() => {}
+            other => return Err(format!("TransactionRequest::new on a valid payment with text {s:?}: {:?}", other.map(|r| observe(&r)))),
+        }
+    }
+    Ok("text-roundtrip")
+}
+
+fn text_lattice() -> Vec<String> {
+    [
+        "", "\u{80}", "\u{7ff}", "\u{800}", "\u{ffff}", "\u{10000}", "\u{10ffff}", "e\u{301}", "\u{301}", "%", "%%", "%41", "%4", "%zz", "%E2%82%AC", "%e2%82", "a%20b", "+", "a+b",
+        " ", "a b", "&", "a&b=c", "=", "?", "#", "/", ":", "@", "日本語", "🦄", "\u{200d}", "\u{feff}", "\0", "\r\n", "\u{7f}", "amount=5", "&address.1=x", "zcash:", "~", "\\", "\"",
+    ]
+    .iter()
+    .map(|s| s.to_string())
+    .collect()
+}
+
+fn sweep_text(run: &Run) {
+    let mut cases: BTreeSet<String> = BTreeSet::new();
+    for c in 0u8..128 {
+        let c = c as char;
+        for s in [format!("{c}"), format!("a{c}b"), format!("{c}{c}"), format!("%{c}"), format!("{c}41"), format!("{c}%"), format!("é{c}é")] {
+            cases.insert(s);
+        }
+    }
+    let lat = text_lattice();
+    for a in &lat {
+        cases.insert(a.clone());
+        for b in &lat {
+            cases.insert(format!("{a}{b}"));
+        }
+    }
+    cases.insert("x".repeat(5000));
+    cases.insert("%".repeat(2001));
+    cases.insert("🦄".repeat(300));
+    run.section("text_cases", json!(cases.len()));
+    let list: Vec<&String> = cases.iter().collect();
+    list.par_chunks(64).for_each(|ch| {
+        for s in ch {
+            match check_text(s) {
+                Ok(o) => run.outcome(o),
+                Err(m) => run.fail("text", format!("text:{}", s.escape_default()), m, json!({"s": s})),
+            }
+        }
+        run.eval_distinct(ch.len() as u64);
+    });
+    // parse direction: every ASCII byte raw inside a value. qchar -> accepted verbatim; anything else is
+    // not a qchar and must not be swallowed into the value ('&' starts a new parameter; '%' starts an escape).
+    for c in 0u8..128 {
+        run.eval(format!("raw-char:{c}").as_bytes());
+        match check_raw_char(c) {
+            Ok(o) => run.outcome(o),
+            Err(m) => run.fail("raw-char", format!("raw-char:{c:#04x}"), m, json!({"c": c})),
+        }
+    }
+}
+
+pub fn check_raw_char(c: u8) -> Result<&'static str, String> {
+    let ch = c as char;
+    let uri = format!("zcash:{}?label=a{}b", addr(1, 0).s, ch);
+    let qchar = ch.is_ascii_alphanumeric() || "-._~!$'()*+,;:@".contains(ch);
+    let got = catch(|| TransactionRequest::from_uri(&uri)).map_err(|p| format!("from_uri panicked on raw byte {c:#04x}: {p}"))?;
+    match got {
+        Ok(r) => {
+            accepted_clauses(&r)?;
+            let label = observe(&r).get(&0).and_then(|p| p.label.clone());
+            if qchar {
+                if label.as_deref() == Some(&format!("a{ch}b")) {
+                    Ok("raw-char:qchar-verbatim")
+                } else {
+                    Err(format!("qchar {ch:?} inside a label came back as {label:?}"))
+                }
+            } else if ch == '%' {
+                Ok("raw-char:lone-percent-accepted") // "%b": not a pct-encoded triplet; the ZIP's grammar excludes it, the docs are silent
+            } else if ch == '&' && label.as_deref() == Some("a") {
+                Ok("raw-char:ampersand-splits") // "b" alone is an otherparam without a value in the ZIP's ABNF
+            } else {
+                Err(format!("byte {c:#04x} is not a qchar but the URI was accepted with label {label:?}"))
+            }
+        }
+        Err(e) => {
+            if qchar {
+                Err(format!("qchar {ch:?} inside a label refused: {e:?}"))
+            } else {
+                Ok("raw-char:non-qchar-refused")
+            }
+        }
+    }
+}
+
+// ---------------------------------------------------------------------------------------------
+// D. memos
+// ---------------------------------------------------------------------------------------------
+
+fn strip_zeros(b: &[u8]) -> &[u8] {
+    let n = b.iter().rposition(|x| *x != 0).map(|i| i + 1).unwrap_or(0);
+    &b[..n]
+}
+
+pub fn check_memo(b: &[u8]) -> Result<&'static str, String> {
+    let r = catch(|| -> Result<&'static str, String> {
+        let mb = MemoBytes::from_bytes(b);
+        if b.len() > 512 {
+            if mb.is_ok() || Memo::from_bytes(b).is_ok() {
+                return Err(format!("{} bytes accepted as a memo", b.len()));
+            }
+            let uri = format!("zcash:{}?memo={}", addr(1, 0).s, b64url(b));
+            if TransactionRequest::from_uri(&uri).is_ok() {
+                return Err(format!("URI with a {}-byte memo accepted", b.len()));
+            }
+            return Ok("memo:too-long-refused");
+        }
+        let mb = mb.map_err(|e| format!("MemoBytes::from_bytes refused {} bytes: {e:?}", b.len()))?;
+        let padded = pad512(b);
+        if mb.as_array()[..] != padded[..] || mb.clone().into_bytes()[..] != padded[..] {
+            return Err("MemoBytes does not hold the zero-padded input".into());
+        }
+        if mb.as_slice() != strip_zeros(b) {
+            return Err(format!("as_slice() has {} bytes, expected {}", mb.as_slice().len(), strip_zeros(b).len()));
+        }
+        // Memo <-> MemoBytes (ZIP 302 classes)
+        let lead = padded[0];
+        let memo = Memo::try_from(&mb);
+        let class = match (&memo, lead) {
+            (Ok(Memo::Text(t)), l) if l <= 0xf4 => {
+                if std::str::from_utf8(strip_zeros(b)).ok() != Some(&**t) {
+                    return Err("text memo content differs from the input".into());
+                }
+                "memo:text"
+            }
+            (Err(_), l) if l <= 0xf4 && std::str::from_utf8(strip_zeros(b)).is_err() => "memo:invalid-utf8-refused",
+            (Ok(Memo::Empty), 0xf6) if padded[1..].iter().all(|x| *x == 0) => "memo:empty",
+            (Ok(Memo::Arbitrary(a)), 0xff) if a[..] == padded[1..] => "memo:arbitrary",
+            (Ok(Memo::Future(f)), l) if l >= 0xf5 && l != 0xff && !(l == 0xf6 && padded[1..].iter().all(|x| *x == 0)) && f.as_array()[..] == padded[..] => "memo:future",
+            (m, l) => return Err(format!("memo with lead byte {l:#04x} classified as {m:?}")),
+        };
+        if let Ok(m) = &memo {
+            if m.encode().as_array()[..] != padded[..] || MemoBytes::from(m.clone()).as_array()[..] != padded[..] {
+                return Err("Memo -> MemoBytes does not give back the bytes".into());
+            }
+            if Memo::from_bytes(b).ok().as_ref() != Some(m) || Memo::try_from(m.encode()).ok().as_ref() != Some(m) {
+                return Err("Memo::from_bytes / try_from(encode()) disagree".into());
+            }
+        }
+        // through the URI (memos are carried as bytes whatever their class)
+        let enc = zip321::memo_to_base64(&mb);
+        if enc != b64url(strip_zeros(b)) {
+            return Err(format!("memo_to_base64 gives {enc:?}, base64url of the unpadded bytes is {:?}", b64url(strip_zeros(b))));
+        }
+        match zip321::memo_from_base64(&enc) {
+            Ok(m2) if m2 == mb => {}
+            other => return Err(format!("memo_from_base64(memo_to_base64(m)) = {other:?}")),
+        }
+        for a in [addr(1, 0), addr(1, 5), addr(1, 6), addr(1, 7)] {
+            let p = Payment::new(a.z.clone(), None, Some(mb.clone()), None, None, vec![]).map_err(|e| format!("memo to {} refused: {e:?}", a.name))?;
+            let r = TransactionRequest::new(vec![p]).map_err(|e| format!("request with memo refused: {e:?}"))?;
+            let uri = r.to_uri();
+            match TransactionRequest::from_uri(&uri) {
+                Ok(r2) if r2 == r && observe(&r2).get(&0).and_then(|p| p.memo.clone()).as_deref() == Some(&padded[..]) => {}
+                other => return Err(format!("memo does not survive to_uri/from_uri to {}: {:?}", a.name, other.map(|r| observe(&r)))),
+            }
+        }
+        // own encodings: unpadded and with the trailing zeros kept
+        for form in [b64url(strip_zeros(b)), b64url(b)] {
+            let uri = format!("zcash:{}?memo={}", addr(1, 0).s, form);
+            match TransactionRequest::from_uri(&uri) {
+                Ok(r2) if observe(&r2).get(&0).and_then(|p| p.memo.clone()).as_deref() == Some(&padded[..]) => {}
+                other => return Err(format!("memo={form:.40} parsed to {:?}", other.map(|r| observe(&r)))),
+            }
+        }
+        // transparent recipients cannot take it
+        for a in [addr(1, 2), addr(1, 3), addr(1, 4)] {
+            if !matches!(Payment::new(a.z.clone(), None, Some(mb.clone()), None, None, vec![]), Err(PaymentError::TransparentMemo)) {
+                return Err(format!("Payment::new accepted a memo for {}", a.name));
+            }
+            let uri = format!("zcash:{}?memo={}", a.s, enc);
+            if TransactionRequest::from_uri(&uri).is_ok() {
+                return Err(format!("URI with a memo for {} accepted", a.name));
+            }
+        }
+        Ok(class)
+    });
+    match r {
+        Ok(x) => x,
+        Err(p) => Err(format!("panic: {p}")),
+    }
+}
+
+fn memo_cases() -> Vec<Vec<u8>> {
+    let mut out: BTreeSet<Vec<u8>> = BTreeSet::new();
+    for len in [0usize, 1, 2, 3, 4, 5, 510, 511, 512, 513, 514, 1024] {
+        for lead in [0x00u8, 0x41, 0x7f, 0x80, 0xc3, 0xf4, 0xf5, 0xf6, 0xf7, 0xfe, 0xff] {
+            for tail in 0..8 {
+                let mut b = vec![0u8; len];
+                for (i, x) in b.iter_mut().enumerate().skip(1) {
+                    *x = match tail {
+                        0 => 0,
+                        1 => 1,
+                        2 => b'a',
+                        3 => 0x80,
+                        4 => if i == len - 1 { 9 } else { 0 },
+                        5 => if i == len - 1 { 0 } else { b'z' },
+                        6 => if i >= len.saturating_sub(3) { 0 } else { b'q' },
+                        _ => [0x8f, 0xbf, 0xbf, b'x'][(i - 1) % 4], // makes F4 8F BF BF (U+10FFFF) with lead 0xF4
+                    };
+                }
+                if len > 0 {
+                    b[0] = lead;
+                }
+                out.insert(b);
+            }
+        }
+    }
+    // F4 90 80 80 is above U+10FFFF
+    out.insert(vec![0xf4, 0x90, 0x80, 0x80]);
+    out.insert(vec![0xf4, 0x8f, 0xbf, 0xbf]);
+    out.insert("✨🦄 memo".as_bytes().to_vec());
+    out.into_iter().collect()
+}
+
+// ---------------------------------------------------------------------------------------------
+// E. Payment::new and requests at index sets
+// ---------------------------------------------------------------------------------------------
+
+const AMOUNTS: [Option<u64>; 4] = [None, Some(0), Some(1), Some(MAX_MONEY)];
+
+pub fn check_payment(ai: usize, am: usize, with_memo: bool) -> Result<&'static str, String> {
+    let a = addrs().get(ai).ok_or("addr")?;
+    let amount = AMOUNTS[am];
+    let memo = with_memo.then(|| MemoBytes::from_bytes(b"memo").unwrap());
+    let got = catch(|| Payment::new(a.z.clone(), amount.map(|z| Zatoshis::from_u64(z).unwrap()), memo.clone(), Some("l".into()), None, vec![])).map_err(|p| format!("Payment::new panicked: {p}"))?;
+    let memo_bad = with_memo && !a.memo_ok;
+    let zero_bad = a.t_only && amount == Some(0);
+    match got {
+        Err(PaymentError::TransparentMemo) if memo_bad => Ok("payment:memo-refused"),
+        Err(PaymentError::ZeroValuedTransparentOutput) if zero_bad => Ok("payment:zero-transparent-refused"),
+        Err(e) => Err(format!("Payment::new({}, {amount:?}, memo={with_memo}) refused with {e:?}", a.name)),
+        Ok(_) if memo_bad || zero_bad => Err(format!("Payment::new({}, {amount:?}, memo={with_memo}) accepted an invalid payment", a.name)),
+        Ok(p) => {
+            // the capability queries of the address agree with the protocol
+            if a.z.can_receive_memo() != a.memo_ok || a.z.is_transparent_only() != a.t_only {
+                return Err(format!("{}: can_receive_memo / is_transparent_only disagree with the address kind", a.name));
+            }
+            let r = catch(|| TransactionRequest::new(vec![p.clone()])).map_err(|p| format!("TransactionRequest::new panicked: {p}"))?.map_err(|e| format!("valid payment refused: {e:?}"))?;
+            accepted_clauses(&r)?;
+            let o = observe(&r);
+            let want = ExpPayment { addr: a.s.clone(), amount, memo: memo.map(|m| m.as_array().to_vec()), label: Some("l".into()), ..Default::default() };
+            if o.get(&0) != Some(&want) || o.len() != 1 {
+                return Err(format!("request holds {o:?}, expected {want:?}"));
+            }
+            // and the same through a hand-written URI with the address as a parameter
+            let mut uri = format!("zcash:?label=l&address={}", a.s);
+            if let Some(z) = amount {
+                uri.push_str(&format!("&amount={}.{:08}", z / COIN, z % COIN));
+            }
+            if with_memo {
+                uri.push_str(&format!("&memo={}", b64url(b"memo")));
+            }
+            match catch(|| TransactionRequest::from_uri(&uri)).map_err(|p| format!("from_uri panicked: {p}"))? {
+                Ok(r2) if r2 == r => Ok("payment:ok"),
+                other => Err(format!("{uri} parsed to {:?}", other.map(|r| observe(&r)))),
+            }
+        }
+    }
+}
+
+const INDEX_SETS: [&[usize]; 10] = [&[0], &[1], &[0, 1], &[5], &[9999], &[0, 9999], &[1, 2, 3], &[10, 100, 1000], &[9998, 9999], &[0, 1, 2, 3, 4, 5, 6, 7, 8, 9, 10]];
+
+fn lattice_payment(k: usize) -> Payment {
+    // varied valid payments
+    let a = addrs();
+    let pick = &a[k % a.len()];
+    let amount = if pick.t_only { Some(1 + k as u64) } else { [None, Some(0), Some(MAX_MONEY / 4)][k % 3] };
+    let memo = (pick.memo_ok && k % 2 == 0).then(|| MemoBytes::from_bytes(&[0xff, k as u8]).unwrap());
+    Payment::new(
+        pick.z.clone(),
+        amount.map(|z| Zatoshis::from_u64(z).unwrap()),
+        memo,
+        (k % 3 == 0).then(|| format!("label {k} &=%")),
+        (k % 4 == 1).then(|| "mess\u{e9}ge".to_string()),
+        if k % 5 == 2 { vec![("b".into(), "2".into()), ("a".into(), "1 1".into())] } else { vec![] },
+    )
+    .expect("lattice payments are valid")
+}
+
+pub fn check_request(set_i: usize, shift: usize) -> Result<&'static str, String> {
+    let set = INDEX_SETS.get(set_i).ok_or("index set")?;
+    let map: BTreeMap<usize, Payment> = set.iter().enumerate().map(|(j, i)| (*i, lattice_payment(j * 7 + shift))).collect();
+    let r = catch(|| TransactionRequest::from_indexed(map.clone())).map_err(|p| format!("from_indexed panicked: {p}"))?.map_err(|e| format!("from_indexed refused indices {set:?}: {e:?}"))?;
+    if r.payments() != &map {
+        return Err("from_indexed does not hold the given payments".into());
+    }
+    accepted_clauses(&r)?;
+    // sequential constructor
+    let seq: Vec<Payment> = map.values().cloned().collect();
+    let r2 = catch(|| TransactionRequest::new(seq.clone())).map_err(|p| format!("new panicked: {p}"))?.map_err(|e| format!("new refused valid payments: {e:?}"))?;
+    if r2.payments().keys().copied().collect::<Vec<_>>() != (0..seq.len()).collect::<Vec<_>>() || r2.payments().values().cloned().collect::<Vec<_>>() != seq {
+        return Err("new() does not number the payments 0..n".into());
+    }
+    accepted_clauses(&r2)?;
+    Ok("request:ok")
+}
+
+pub fn check_limits() -> Result<&'static str, String> {
+    let p = lattice_payment(0);
+    let over = catch(|| TransactionRequest::from_indexed(BTreeMap::from([(10000usize, p.clone())]))).map_err(|p| format!("from_indexed panicked: {p}"))?;
+    if over.is_ok() {
+        return Err("from_indexed accepted payment index 10000".into());
+    }
+    let many = catch(|| TransactionRequest::new(vec![p.clone(); 9999])).map_err(|p| format!("new panicked: {p}"))?.map_err(|e| format!("new refused 9999 payments: {e:?}"))?;
+    accepted_clauses(&many)?;
+    let empty = TransactionRequest::empty();
+    accepted_clauses(&empty)?;
+    match catch(|| TransactionRequest::new(vec![])).map_err(|p| format!("new([]) panicked: {p}"))? {
+        Ok(r) if r == empty => {}
+        other => return Err(format!("new([]) = {:?}", other.map(|r| observe(&r)))),
+    }
+    Ok("limits:ok")
+}
+
+/// Degenerate and malformed URI strings: never a panic; anything accepted satisfies the common clauses.
+pub fn check_raw_uri(uri: &str) -> Result<&'static str, String> {
+    match catch(|| TransactionRequest::from_uri(uri)).map_err(|p| format!("from_uri panicked on {uri:?}: {p}"))? {
+        Ok(r) => {
+            accepted_clauses(&r)?;
+            Ok("raw-uri:accepted")
+        }
+        Err(_) => Ok("raw-uri:refused"),
+    }
+}
+
+fn raw_uris() -> Vec<String> {
+    let a = &addr(1, 0).s;
+    let t = &addr(1, 2).s;
+    let mut v: Vec<String> = [
+        "", "zcash", "zcash:", "zcash:?", "zcash:??", "zcash:&", "zcash:?&", "zcash:?=", "zcash:?a", "zcash:?a=", "zcash:?1=2", "ZCASH:", "zcash://", "zcash:?amount=1", "zcash:?address=",
+        "zcash:?address", "zcash:#", "bitcoin:", " zcash:", "zcash:\u{0}", "zcash:?amount.1=1&amount=2", "zcash:?🦄=1", "zcash:?a=🦄", "zcash:?a.=1", "zcash:?a.1.2=1", "zcash:?a..1=1",
+        "zcash:?.1=1", "zcash:?a.1", "zcash:?a.99999999999999999999=1", "zcash:?-a=1", "zcash:?a-=1", "zcash:?a+b-c=1",
+    ]
+    .iter()
+    .map(|s| s.to_string())
+    .collect();
+    for tail in ["?", "?&", "?amount=1&", "?&amount=1", "?amount=1&&label=x", "?amount", "?amount=", "?=1", "?amount=1#frag", "?amount=1?amount=2", "?label=%", "?label=%f", "?label=%ff", "?label=%C3%28", "?other", "?other.1", "?req-", "?req-=1", "?Req-x=1", "?REQ-x=1", "?reqx=1", "?address=", "/", "?memo=", "?memo=A", "?memo=AA=", "?memo=AB", "?memo=A+B/", "?amount.1=1", "?amount.9999=1&address.9999=", "?message=a=b"] {
+        v.push(format!("zcash:{a}{tail}"));
+        v.push(format!("zcash:{t}{tail}"));
+    }
+    v.push(format!("zcash:{a}?address={a}"));
+    v.push(format!("zcash:{a}?address.1={a}&address.1={t}"));
+    v.push(format!("zcash: {a}"));
+    v.push(format!("zcash:{a} "));
+    v.push(format!("zcash:{a}%20"));
+    v.push(format!("zcash:{}", a.to_ascii_uppercase()));
+    v.push(format!("zcash:?address={}", a.to_ascii_uppercase()));
+    v.push(format!("zcash:{a}?{}", vec!["x=1"; 3].join("&")));
+    v.push(format!("zcash:{a}?{}", (0..2000).map(|i| format!("p{i}=v")).collect::<Vec<_>>().join("&")));
+    v
+}
+
+// ---------------------------------------------------------------------------------------------
+
+pub fn replay(kind: &str, case: &Value) -> Result<(), String> {
+    let u = |k: &str| case[k].as_u64().map(|x| x as usize).ok_or_else(|| format!("missing {k}"));
+    match kind {
+        "uri" => {
+            let toks: Vec<usize> = case["toks"].as_array().ok_or("toks")?.iter().filter_map(|v| v.as_u64().map(|x| x as usize)).collect();
+            check_uri(u("lead")?, &toks).map(|_| ())
+        }
+        "amount" => check_amount(case["z"].as_str().and_then(|s| s.parse().ok()).ok_or("z")?),
+        "amount-str" => check_amount_str(case["s"].as_str().ok_or("s")?).map(|_| ()),
+        "text" => check_text(case["s"].as_str().ok_or("s")?).map(|_| ()),
+        "raw-char" => check_raw_char(u("c")? as u8).map(|_| ()),
+        "memo" => check_memo(&hex::decode(case["bytes"].as_str().ok_or("bytes")?).map_err(|e| e.to_string())?).map(|_| ()),
+        "payment" => check_payment(u("addr")?, u("amount")?, case["memo"].as_bool().ok_or("memo")?).map(|_| ()),
+        "request" => check_request(u("set")?, u("shift")?).map(|_| ()),
+        "limits" => check_limits().map(|_| ()),
+        "raw-uri" => check_raw_uri(case["uri"].as_str().ok_or("uri")?).map(|_| ()),
+        _ => Err(format!("unknown kind {kind}")),
+    }
+}
+
+pub fn run(args: &Args) -> i32 {
+    let run = Run::new(args, "exploration");
+    let maxlen = args.tier.pick(3, 4);
+    run.set_rule(&format!(
+        "URIs: 4 lead-address choices x every sequence (with repetition, every order) of length 0..={maxlen} over the 35-token parameter \
+         alphabet (name x index form x value variant), each rendered to a distinct string (thorough tier: also every length-5 sequence over the tokens that are well-formed on their own); amounts: {} ; labels/messages/other values: \
+         every ASCII character in 7 contexts and all pairs of a 42-string UTF-8/percent lattice x 3 fields x 2 index positions; memos: \
+         12 lengths x 11 lead bytes x 8 tail patterns; Payment::new on 24 recipients x 4 amounts x 2 memo choices; requests at 10 index \
+         sets x 4 payment assignments. A case is distinct by its generating tuple and non-trivial because each is a full parse and/or render",
+        args.tier.pick(
+            "quick tier: all fractional parts with at most 4 non-zero digits, all below 1000 and the boundaries x coins {0,1,20999999}, and the same subset of coin values x fractions {0,1,10^7,99999999} (the complete sweeps run in the thorough tier)",
+            "all 10^8 fractional parts x coins {0,1,20999999} and all 21000001 coin values x fractions {0,1,10^7,99999999}"
+        )
+    ));
+    run.assume("ZIP 321 is read as: parameters may come in any order; each (name,index) at most once; every index needs an address; `zcash:<addr>?..` is `address=<addr>` at index 0; a parameter starting with req- that is not understood makes the URI invalid");
+    run.assume("accept/reject agreement is demanded only for URIs built from unambiguous tokens (always `name=value`); `zcash:` with no payment, a lone '%', parameters without '=', leading zeros in amounts are accepted either way and only the accepted-implies clauses are checked");
+    run.assume("whole and fractional parts of an amount are converted independently (visible in amount_str/parse_amount); the two sweeps cover each part exhaustively against boundary values of the other");
+    run.assume("other_params names are outside {address, amount, memo, label, message} and do not start with req- (documented precondition of the crate's own generators)");
+    run.assume("total(): documented both as Ok(None) when a payment has no amount and as Err when a summation step leaves the range; when both hold either answer is accepted");
+    run.assume("which recipients can take a memo / are transparent-only is stated by the harness from the protocol (Sprout, Sapling, UA with shielded receiver: memo; P2PKH, P2SH, TEX: transparent-only)");
+
+    sweep_uris(&run, maxlen, (args.tier == Tier::Thorough).then_some(5));
+    run.section("t_uris_s", json!(run.elapsed()));
+    if std::env::var("VERIF_C12_SKIP_AMOUNTS").is_ok() {
+        run.cap_hit("debug switch VERIF_C12_SKIP_AMOUNTS set: amount sweeps not run");
+    } else {
+        sweep_amounts(&run, args.tier);
+    }
+    run.section("t_amounts_s", json!(run.elapsed()));
+    sweep_text(&run);
+    let memos = memo_cases();
+    run.section("memo_cases", json!(memos.len()));
+    memos.par_iter().for_each(|b| {
+        run.eval_distinct(1);
+        match check_memo(b) {
+            Ok(o) => run.outcome(o),
+            Err(m) => run.fail("memo", format!("memo:len{}:{}", b.len(), mc_core::sha256_hex(b)[..12].to_string()), m, json!({"bytes": hex::encode(b)})),
+        }
+    });
+    for ai in 0..addrs().len() {
+        for am in 0..AMOUNTS.len() {
+            for memo in [false, true] {
+                run.eval(format!("payment:{ai}:{am}:{memo}").as_bytes());
+                match check_payment(ai, am, memo) {
+                    Ok(o) => run.outcome(o),
+                    Err(m) => run.fail("payment", format!("payment:{}:{:?}:memo={memo}", addrs()[ai].name, AMOUNTS[am]), m, json!({"addr": ai, "amount": am, "memo": memo})),
+                }
+            }
+        }
+    }
+    for set in 0..INDEX_SETS.len() {
+        for shift in 0..4 {
+            run.eval(format!("request:{set}:{shift}").as_bytes());
+            match check_request(set, shift) {
+                Ok(o) => run.outcome(o),
+                Err(m) => run.fail("request", format!("request:{:?}:{shift}", INDEX_SETS[set]), m, json!({"set": set, "shift": shift})),
+            }
+        }
+    }
+    run.eval(b"limits");
+    match check_limits() {
+        Ok(o) => run.outcome(o),
+        Err(m) => run.fail("limits", "limits".into(), m, json!({})),
+    }
+    for uri in raw_uris() {
+        run.eval(format!("raw-uri:{uri}").as_bytes());
+        match check_raw_uri(&uri) {
+            Ok(o) => run.outcome(o),
+            Err(m) => run.fail("raw-uri", format!("raw-uri:{}", if uri.len() > 200 { format!("{}…({} bytes)", &uri[..100], uri.len()) } else { uri.escape_default().to_string() }), m, json!({"uri": uri})),
+        }
+    }
+    // Observation only (outside the stated precondition on other_params names, so no verdict): what happens when a
+    // reserved name is passed as an "other" parameter.
+    let obs = catch(|| {
+        let p = Payment::new(addr(1, 0).z.clone(), None, None, None, None, vec![("amount".to_string(), "5".to_string())]).ok()?;
+        let r = TransactionRequest::new(vec![p]).ok()?;
+        let back = TransactionRequest::from_uri(&r.to_uri()).ok()?;
+        Some(back == r)
+    });
+    run.section(
+        "observation_reserved_name_in_other_params",
+        json!({"input": "Payment::new(.., other_params=[(\"amount\",\"5\")]) -> TransactionRequest::new", "accepted_and_roundtrips": format!("{obs:?}"),
+               "note": "Some(false) means new() accepts the request although its URI parses to a different request (amount=5 ZEC); names are a documented precondition, not checked here"}),
+    );
+    run.sample(json!({"uri": "zcash:?amount=1&address=<sapling>&address.1=<p2pkh>&amount.1=0", "expected": "reject (zero-valued transparent output)"}));
+    run.sample(json!({"uri": "zcash:<sapling>?address=<sapling2>", "expected": "reject (duplicate address at index 0)"}));
+    run.sample(json!({"uri": "zcash:<sapling>?amount.9999=0.1&address.9999=<p2pkh>", "expected": "accept, two payments"}));
+    run.sample(json!({"amount": "20999999.99999999 -> 2099999999999999 zatoshis and back", "also": "21000000.00000001 refused"}));
+    run.require(run.outcomes_distinct() >= 25 || run.failure_count() > 0, "fewer than 25 distinct outcome classes observed");
+    run.finish(&replay)
 }
